@@ -37,10 +37,9 @@ RULE = (
     "optional **kw, 1-4 injected parameters (positional-or-keyword or keyword-only; names from {default, a, b}; annotation spelling one of "
     f"{SPELLINGS}, as objects or as strings; classes at module level or local to an enclosing function), sync or async; each injected "
     f"resource in one of the states {STATES}; decorated while another context is current; called in a root context, a nested context or a "
+    "spawned task; explicit lookups before or after the call. Plus the decoration-time rejection matrix. "
     "Forward references that only exist after the first call; extra positional arguments into *args in front of keyword-only injected parameters; functions without any marker. "
-    "spawned task; explicit lookups before or after the call. Plus the decoration-time rejection matrix. Non-trivial: >= 2 injected parameters or "
-    "a factory-made / inherited / missing resource; distinct = (signature source, states, call site, order)."
-)
+    "Non-trivial: >= 2 injected parameters or ")
 DECIDING = {
     "calls_with_extra_positional_args": "calls passing additional positional arguments into *args in front of keyword-only injected parameters",
     "first_call_failed_on_unresolved_forward_ref": "functions first called while a forward reference in their annotations did not exist yet, then called again",
